@@ -4,33 +4,42 @@
 Writes /verif/seeded/RESULTS.json. usage: tools/mutants_all.py [name-regex]"""
 import json, os, subprocess, sys, glob, re, time
 pref = sys.argv[1] if len(sys.argv) > 1 else ""
-res = {}
+# optional: --repo <scratch worktree of /repo> --shard i/n --out <file>  (parallel runs; the
+# checks are pointed at the scratch tree with VCHECK_REPO, /repo itself is not touched)
+repo, shard, nshard = "/repo", 0, 1
 rp = "/verif/seeded/RESULTS.json"
+for i, a in enumerate(sys.argv):
+    if a == "--repo": repo = sys.argv[i + 1]
+    if a == "--shard": shard, nshard = [int(x) for x in sys.argv[i + 1].split("/")]
+    if a == "--out": rp = sys.argv[i + 1]
+envp = "" if repo == "/repo" else f"VCHECK_REPO={repo} "
+res = {}
 if os.path.exists(rp):
     res = json.load(open(rp))
-for d in sorted(glob.glob("/verif/seeded/C*-*")):
+todo = [d for d in sorted(glob.glob("/verif/seeded/C*-*")) if re.search(pref, os.path.basename(d))]
+for idx, d in enumerate(todo):
     name = os.path.basename(d)
-    if not re.search(pref, name):
+    if idx % nshard != shard:
         continue
     meta = json.load(open(d + "/meta.json"))
     ids = [meta["property"]] + meta.get("also", [])
-    if subprocess.run("git -C /repo diff --quiet", shell=True).returncode != 0:
+    if subprocess.run(f"git -C {repo} diff --quiet", shell=True).returncode != 0:
         print("repo dirty, abort"); sys.exit(2)
-    rc = subprocess.run(f"git -C /repo apply {d}/patch.diff || (git -C /repo apply -3 {d}/patch.diff && git -C /repo reset -q)", shell=True).returncode
+    rc = subprocess.run(f"git -C {repo} apply {d}/patch.diff || (git -C {repo} apply -3 {d}/patch.diff && git -C {repo} reset -q)", shell=True).returncode
     if rc != 0:
-        subprocess.run("git -C /repo reset -q --hard HEAD", shell=True)
+        subprocess.run(f"git -C {repo} reset -q --hard HEAD", shell=True)
         res[name] = {"error": "patch does not apply"}; print(name, "PATCH DOES NOT APPLY", flush=True); continue
     out = {}
     try:
         for cid in ids:
             t0 = time.time()
-            p = subprocess.run(f"cd /verif && VERIF_TIER=quick timeout 900 ./bin/vcheck run {cid}", shell=True, stdout=subprocess.PIPE, stderr=subprocess.STDOUT)
+            p = subprocess.run(f"cd /verif && {envp}VERIF_TIER=quick timeout 900 ./bin/vcheck run {cid}", shell=True, stdout=subprocess.PIPE, stderr=subprocess.STDOUT)
             txt = p.stdout.decode(errors="replace")
             classes = sorted(set(re.findall(r"^VIOLATION property=\S+ replay=\S+ class=(\S+) shape=(\S+)", txt, re.M)))
             out[cid] = {"exit": p.returncode, "detected": p.returncode == 1, "seconds": round(time.time() - t0, 1),
                         "violation_classes": [f"{c} [{s}]" for c, s in classes][:8]}
             print(name, cid, "exit", p.returncode, [c for c, _ in classes][:3], flush=True)
     finally:
-        subprocess.run("git -C /repo checkout -- . && git -C /repo status --short", shell=True)
+        subprocess.run(f"git -C {repo} checkout -- . && git -C {repo} status --short", shell=True)
     res[name] = out
     json.dump(res, open(rp, "w"), indent=1)
